@@ -801,6 +801,41 @@ theorem blank_line_witness :
     prefilter '#' "1,2\n  \n4,3\n".toList = .error .blankLine ∧
     prefilter '#' "1,2\n4,3\n\n".toList = .error .blankLine := by decide
 
+/-- **comment_text_irrelevant.** The outcome of a read — the table or the error — does not depend
+    on the *text* of comment lines: two file texts with the same number of lines that agree on
+    every line which is not a comment (and have comments at the same places) are read alike, for
+    every IGNORE character, `$INPUT` list, NULL value and condition list. In particular a blank
+    before a TAB, separators only, or an over-long item inside a comment line cannot raise. -/
+theorem comment_text_irrelevant (ic : Char) (c1 c2 : Str)
+    (hterm : LinesAgree ic (splitNl c1).dropLast (splitNl c2).dropLast)
+    (hlast : SameUpToComment ic ((splitNl c1).getLast?.getD []) ((splitNl c2).getLast?.getD [])) :
+    prefilter ic c1 = prefilter ic c2 ∧
+    ∀ names drop null missing mode filters,
+      readDataset c1 ic names drop null missing mode filters =
+      readDataset c2 ic names drop null missing mode filters := by
+  have hk : keptTerm ic c1 = keptTerm ic c2 := filter_comments_rel ic _ _ hterm
+  have hl : keptLast ic c1 = keptLast ic c2 := by
+    unfold keptLast
+    rcases hlast with h | ⟨ha, hb⟩
+    · simp only [h]
+    · simp only [ha, hb, if_true]
+  have hp : prefilter ic c1 = prefilter ic c2 := by
+    unfold prefilter
+    rw [hk, hl]
+  refine ⟨hp, ?_⟩
+  intro names drop null missing mode filters
+  unfold readDataset
+  rw [hp]
+
+example : LinesAgree '#' ["#a \tb".toList, "1,2".toList] ["#x".toList, "1,2".toList] :=
+  .cons (Or.inr (by decide)) (.cons (Or.inl rfl) .nil)
+
+/-- the text of a comment may hold a blank before a TAB (an error in a data row) -/
+theorem comment_space_tab_witness :
+    prefilter '#' "# dose changed \there\n1,2\n".toList = .ok ["1,2".toList] ∧
+    prefilter '@' "ID \tTIME\n1,2\n".toList = .ok ["1,2".toList] ∧
+    prefilter '#' "1 \t2\n".toList = .error .spaceTab := by decide
+
 /-- comment lines: IGNORE=c removes the lines starting with c — also an unterminated
     last line (fixed 82e4d59) and for a regex meta character (fixed 0a05222). -/
 theorem comment_line_witness :
